@@ -133,6 +133,21 @@ static void panel(vt::Rng& r, int reps) {
     for (int64_t f : fss) join<Rep, Ratio>(s, f);
 }
 
+// 64-bit counts of minutes / hours / days: every second of the int64 range has a floor in them, including the
+// outermost Num seconds of both ends (where a "round towards the floor" written as subtract-then-divide wraps)
+template <typename Rep, typename Ratio>
+static void join_limits() {
+  const int64_t num = Ratio::num, mn = std::numeric_limits<int64_t>::min(), mx = std::numeric_limits<int64_t>::max();
+  std::vector<int64_t> secs = {0, 1, -1, num - 1, num, num + 1, -num + 1, -num, -num - 1, 1000000007, -1000000007};
+  for (int64_t k : {(int64_t)0, (int64_t)1, (int64_t)2, num / 2, num - 2, num - 1, num, num + 1, 2 * num - 1, 2 * num, 2 * num + 1}) {
+    secs.push_back(mn + k);
+    secs.push_back(mx - k);
+  }
+  const int64_t fss[] = {0, 1, 999999999999999LL};
+  for (int64_t s : secs)
+    for (int64_t f : fss) join<Rep, Ratio>(s, f);
+}
+
 int main(int argc, char** argv) {
   if (argc < 5) return 2;
   vt::install_trap_handler();
@@ -159,6 +174,10 @@ int main(int argc, char** argv) {
   panel<int64_t, std::ratio<1, 60>>(r, reps);
   panel<int64_t, std::ratio<1, 90000>>(r, reps);
   panel<int64_t, std::ratio<1, 7>>(r, reps);
+  join_limits<int64_t, std::ratio<60>>();
+  join_limits<int64_t, std::ratio<3600>>();
+  join_limits<int64_t, std::ratio<86400>>();
+  join_limits<int64_t, std::ratio<604800>>();
   // texts one second inside / outside the range of time_point<seconds>, written with an explicit offset and parsed with
   // zones east and west of UTC (the limits are those of the instant, whatever zone is supplied)
   {
